@@ -100,6 +100,25 @@ func init() {
 	delete(intrinsicPrefix, "__never__")
 
 	// ---- strings ----
+	// maps.clone is linked to the runtime: shallow copy of the map inside the interface
+	reg("maps.clone", func(x *Exec, g *G, a []Value) Value {
+		iv, ok := a[0].(Iface)
+		if !ok {
+			x.unsupported("maps.clone of non-interface")
+			return a[0]
+		}
+		m, _ := iv.V.(*MapV)
+		if m == nil {
+			return iv
+		}
+		c := &MapV{KT: m.KT, VT: m.VT}
+		for _, e := range m.Entries {
+			if !e.Deleted {
+				c.Entries = append(c.Entries, &mapEntry{K: copyVal(e.K), V: copyVal(e.V)})
+			}
+		}
+		return Iface{T: iv.T, V: c}
+	})
 	reg("strings.HasPrefix", func(x *Exec, g *G, a []Value) Value {
 		s, p := a[0].(*Str), a[1].(*Str)
 		if s.Opaque || p.Opaque {
